@@ -696,6 +696,7 @@ struct Engine : public vf::Engine {
                       size_t got = det.totalMemoryLeaks(mem_leak_period_all);
                       if (got != want) {
                           fail(W, "C05", "tracked_after_failed_request", sg("op", on), sfmt("op %zu: after the failed realloc the detector tracks %zu blocks, %zu are still held", oi, got, want));
+                          fail(W, "C04", "totals", sg("after", on), sfmt("after op %zu (%s): totalMemoryLeaks(all) = %zu, model %zu (a failed realloc must not change the outstanding set)", oi, on, got, want));
                           // what the correctly paired release of the block says now, by observation (C06: paired releases never produce a report)
                           CTX.reports.clear();
                           int relCat = expectedCategory(W, S, fa);
